@@ -489,6 +489,24 @@ def _core_order_and_controls():
     t.suite('s1.suite', [['cases', 'p.case']])
     t.suite('root.suite', [['suites', '"s?.suite"']])
     yield t.descriptor('core-invalid', label='missing:quoted-suite-name-with-question-mark-is-not-a-pattern')
+    # --- a listed name that cannot exist: a path component is a regular file; a name longer than the OS accepts ------
+    t = Tree()
+    t.case('p.case')
+    t.suite('root.suite', [['cases', 'p.case'], ['cases', 'p.case/x.case']])
+    yield t.descriptor('core-invalid', label='missing:case-below-a-regular-file')
+    t = Tree()
+    t.case('p.case')
+    t.suite('root.suite', [['suites', 'p.case/x.suite'], ['cases', 'p.case']])
+    yield t.descriptor('core-invalid', label='missing:suite-below-a-regular-file')
+    t = Tree()
+    t.case('p.case')
+    t.suite('root.suite', [['cases', 'p.case'], ['cases', 'n' * 300 + '.case']])
+    yield t.descriptor('core-invalid', label='missing:case-name-longer-than-the-os-accepts')
+    t = Tree()
+    t.case('p.case')
+    t.suite('sub/s.suite', [['suites', 'n' * 300 + '.suite']])
+    t.suite('root.suite', [['cases', 'p.case'], ['suites', 'sub/s.suite']])
+    yield t.descriptor('core-invalid', label='missing:suite-name-longer-than-the-os-accepts-in-sub-suite')
     t = Tree()
     t.suite('root.suite', [])
     yield t.descriptor('core-control', label='empty-suite')
